@@ -182,6 +182,30 @@ def _wit(fn, **kw):
 
 
 # ------------------------------------------------------------------------------------------------ monitors: series
+def _off_peaks(vals, g, tp):
+    """Indices where a peak-only series is non-zero away from the turning points. The series is built from x - x[0]: when
+    one sample dwarfs the steps between the others that subtraction rounds, and samples closer than an ulp of the rebased
+    values legitimately merge into one plateau - an index inside such a rounding-plateau that contains a turning point is
+    not counted (validity range of the exact clause: dynamic range up to 1e12 and beyond)."""
+    n = len(vals)
+    off = [i for i in range(n) if g[i] != 0 and i not in tp]
+    if not off:
+        return off
+    v0 = vals[0]
+    u = 2 * math.ulp(max(abs(v - v0) for v in vals))
+    out = []
+    for i in off:
+        lo = i
+        while lo > 0 and abs(vals[lo - 1] - vals[i]) <= u:
+            lo -= 1
+        hi = i
+        while hi < n - 1 and abs(vals[hi + 1] - vals[i]) <= u:
+            hi += 1
+        if not any(k in tp for k in range(lo, hi + 1)):
+            out.append(i)
+    return out
+
+
 def check_delta(ctx, values, result):
     dom = _domain(values)
     if dom is None:
@@ -196,7 +220,7 @@ def check_delta(ctx, values, result):
     g = got.astype(float).tolist()
     tv = P.total_variation(vals)
     tp = set(P.turning_points(vals)[0])
-    off = [i for i in range(n) if g[i] != 0 and i not in tp]
+    off = _off_peaks(vals, g, tp)
     ctx.check(not off, 'delta.zero-off-peaks', W, 'delta series of %s non-zero off the peaks at %s: %s' % (vals[:12], off[:8], g[:12]))
     sabs = math.fsum(abs(v) for v in g)
     ctx.check(abs(sabs - tv) <= 1e-9 * tv, 'delta.sum|d|==TV', W,
@@ -221,7 +245,7 @@ def check_pseudo(ctx, values, result):
     g = got.astype(float).tolist()
     tv = P.total_variation(vals)
     tp = set(P.turning_points(vals)[0])
-    off = [i for i in range(n) if g[i] != 0 and i not in tp]
+    off = _off_peaks(vals, g, tp)
     ctx.check(not off, 'pseudo.zero-off-peaks', W, 'pseudo-cyclic series of %s non-zero off the peaks at %s' % (vals[:12], off[:8]))
     s = math.fsum(g)
     exp = C.pseudo_cyclic_sum(vals)
@@ -875,6 +899,50 @@ def rel_enum(eqsig, ctx, fname, seq, k, with_int=True):
                   '%s changes under the constant shift -2: %s -> %s vs %s' % (fname, list(seq), base.tolist(), rs.tolist()))
 
 
+B_SIZES = (1, 2, 3, 5, 31, 32, 33, 63, 64, 65, 127, 128, 129, 256)
+
+
+def draw_bvec(rng, nb):
+    """Exponent array of nb entries in (0.05, 1]: unsorted, sometimes descending, sometimes with repeated entries."""
+    r = rng.random()
+    if r < 0.4 and nb > 1:
+        pool = rng.uniform(0.0501, 1.0, size=max(1, nb // 3))
+        bv = rng.choice(pool, size=nb)
+    else:
+        bv = rng.uniform(0.0501, 1.0, size=nb)
+    if rng.random() < 0.3:
+        bv = np.sort(bv)[::-1].copy()
+    if rng.random() < 0.3:
+        bv[int(rng.integers(nb))] = float(rng.choice([0.3, 0.34, 1.0]))
+    return np.ascontiguousarray(bv, dtype=float)
+
+
+def rel_bsizes(eqsig, ctx, x, y, a_ref, cut_off, n_cyc, bvec, perm, j):
+    """Array-valued b of every size: all columns are judged by the monitors; one column against the scalar call; a
+    permutation of the exponents must permute the columns."""
+    if not (_in_range(ctx, 'b-sizes', [x, y], bvec) and _in_range(ctx, 'b-sizes', [x], bvec, a_ref)):
+        return
+    n = len(x)
+    nb = len(bvec)
+    perm = np.asarray(perm)
+    bp = np.ascontiguousarray(bvec[perm])
+    W = lambda **kw: _wit('rel:bsizes', x=x, y=y, a_ref=a_ref, cut_off=cut_off, n_cyc=n_cyc, bvec=bvec, perm=perm, j=j, **kw)
+    for name, f in (('ncyc', lambda bb: _ncyc(eqsig, ctx, x, a_ref, bb, cut_off)), ('amp', lambda bb: _amp(eqsig, ctx, x, n_cyc, bb)),
+                    ('gm', lambda bb: _gm(eqsig, ctx, x, y, n_cyc, bb))):
+        R = f(bvec)
+        Rp = f(bp)
+        Rs = f(float(bvec[j]))
+        if R is None or Rp is None or Rs is None:
+            continue
+        shp = R.shape == (n, nb) and Rp.shape == (n, nb) and Rs.size == n
+        ok = shp and tol.close(Rp, R[:, perm], scale=np.abs(R[:, perm]), rtol=1e-12)
+        ctx.check(ok, 'array-b permutation==column permutation', lambda: W(which=name, got=Rp, base=R),
+                  '%s: permuting the %d exponents does not permute the columns (shapes %s %s)' % (name, nb, R.shape, Rp.shape))
+        ok = shp and tol.close(R[:, j], Rs.reshape(n), scale=np.abs(Rs.reshape(n)), rtol=1e-12)
+        ctx.check(ok, 'array-b column==scalar-b', lambda: W(which=name, col=R[:, j] if R.ndim == 2 else R, scalar=Rs),
+                  '%s: column %d of an array b of %d entries differs from scalar b=%r' % (name, j, nb, float(bvec[j])))
+
+
 ALL6 = (DELTA, PSEUDO, NCYC, AMP, GM, COMB)
 REAL_FORMS = ('noncontig', 'reversed-view', 'readonly', 'list-float', 'tuple-float', 'mixed-list', 'float32', 'accsignal.values')
 INT_FORMS = ('int8', 'int16', 'int32', 'int64', 'uint8', 'uint16', 'int8-full', 'int16-full', 'int32-full', 'int64-full',
@@ -1054,6 +1122,7 @@ def rel_optform(eqsig, ctx, x, y, a_ref, b, b2, cut_off, n_cyc):
 RELATIONS = {'rel:enum': lambda e, c, w: rel_enum(e, c, w['fname'], tuple(w['seq']), w['k'], w.get('with_int', True)),
              'rel:shift': lambda e, c, w: rel_shift(e, c, w['fname'], w['x'], w['c']),
              'rel:form': lambda e, c, w: rel_form(e, c, w['label'], w['x'], w['y'], w['a_rel'], w['b'], w['cut_off'], w['n_cyc']),
+             'rel:bsizes': lambda e, c, w: rel_bsizes(e, c, w['x'], w['y'], w['a_ref'], w['cut_off'], w['n_cyc'], w['bvec'], w['perm'], w['j']),
              'rel:b2b': lambda e, c, w: rel_b2b(e, c, w['fname'], w['x'], w['px'], w['y'], w['py']),
              'rel:optform': lambda e, c, w: rel_optform(e, c, w['x'], w['y'], w['a_ref'], w['b'], w['b2'], w['cut_off'], w['n_cyc']),
              'rel:dtype': lambda e, c, w: rel_dtype(e, c, w['fname'], w['xi'], w['params']),
@@ -1071,8 +1140,10 @@ INT_CLASSES = ('intnoise', 'plateau', 'intwalk', 'clipped')
 
 def random_series(rng, n):
     """(float64 series, class name, integer_valued)."""
-    k = int(rng.integers(0, 11))
+    k = int(rng.integers(0, 16))
     t = np.arange(n, dtype=float)
+    if k >= 11:
+        return _more_series(rng, n, k, t)
     if k == 0:
         x, cls = rng.normal(size=n), 'noise'
     elif k == 1:
@@ -1123,6 +1194,41 @@ def random_series(rng, n):
     x = np.asarray(x, dtype=float)
     integer = cls in INT_CLASSES
     return x, cls, integer
+
+
+def _more_series(rng, n, k, t):
+    """Record shapes the statement does not forbid (audit items 10, 11)."""
+    if k == 11:     # constant-magnitude alternation (energy at Nyquist), a single step, a single changed sample
+        c = ['alt', 'step', 'impulse'][int(rng.integers(3))]
+        x = gen.record(rng, n, cls=c, amp=1.0)[0]
+        if c == 'alt' and rng.random() < 0.5:
+            x = x + float(rng.integers(-3, 4))
+        if x.min() == x.max():
+            x[int(rng.integers(n))] += 1.0
+        return np.asarray(x, dtype=float), 'unit-' + c, True
+    if k == 12:     # monotone / trend dominated
+        slope = float(rng.choice([-1.0, 1.0]))
+        x = slope * t + float(rng.choice([0.0, 0.3, 3.0])) * rng.normal(size=n) + float(rng.choice([0.0, -0.5 * n, 7.0]))
+        return x, 'trend', False
+    if k == 13:     # one-sided: all the action at negative values, never touching zero / touching zero
+        x = -(np.abs(rng.normal(size=n)) + float(rng.choice([0.0, 0.5])))
+        if rng.random() < 0.3:
+            x[rng.random(n) < 0.1] = 0.0
+        if x.min() == x.max():
+            x[0] -= 1.0
+        return x, 'one-sided-negative', False
+    if k == 14:     # tail-heavy: all the action in the last 1/k of the record
+        m = min(n, max(2, n // int(rng.choice([4, 10, 50]))))
+        x = np.full(n, float(rng.choice([0.0, 1.5, -2.0])))
+        x[n - m:] += rng.normal(size=m)
+        if x.min() == x.max():
+            x[-1] += 1.0
+        return x, 'tail-heavy', False
+    # one sample 1e3 .. 1e12 times larger than the steps between the others, at the first / last / an inner sample
+    x = rng.normal(size=n) if rng.random() < 0.5 else np.convolve(rng.normal(size=n + 6), np.ones(7) / 7, mode='valid')[:n]
+    pos = [0, n - 1, int(rng.integers(n))][int(rng.integers(3))]
+    x[pos] = float(rng.choice([-1.0, 1.0])) * float(10.0 ** rng.uniform(3, 12))
+    return x, 'spike', False
 
 
 def amplitude_and_offset(rng, x, integer):
@@ -1281,6 +1387,10 @@ def audit_block(eqsig, ctx, x, integer, rng, c):
         rel_form(eqsig, ctx, label, x, y, a_rel, b, cut, n_cyc)
     if integer and yint and float(np.max(np.abs(x))) < 100 and float(np.max(np.abs(y))) < 100:
         rel_form(eqsig, ctx, ('int8-full', 'uint8-full', 'int16-full', 'int32-full')[c % 4], x, y, a_rel, b, cut, n_cyc)
+    # array-valued b: 1, 2, ... entries, sizes around the powers of two (the large ones on every fourth block)
+    nb = int(rng.choice(B_SIZES[:7] if c % 4 else B_SIZES[7:]))
+    bvec = draw_bvec(rng, nb)
+    rel_bsizes(eqsig, ctx, x, y, a_rel * gmax, cut, n_cyc, bvec, rng.permutation(nb), int(rng.integers(nb)))
     if c % 2 == 0:
         rel_optform(eqsig, ctx, x, y, a_rel * gmax, b, b2, cut, n_cyc)
     else:
@@ -1312,6 +1422,19 @@ def long_block(eqsig, ctx, rng):
     _comb(eqsig, ctx, cont, y, 15.0, b)
     _gm(eqsig, ctx, cont, y, 15.0, b)
     ctx.ok('long-record(>2**16) driven')
+
+
+def matrix_block(eqsig, ctx, rng):
+    """A record x exponent matrix of more than 2**22 entries through the cycle and the amplitude function."""
+    n, nb = 2 ** 15 + int(rng.integers(1, 9)), 129
+    x = np.convolve(rng.normal(size=n + 6), np.ones(7) / 7, mode='valid')[:n] * float(10.0 ** rng.uniform(-2, 2))
+    bvec = rng.uniform(0.2, 1.0, size=nb)
+    gmax = float(np.max(np.abs(x)))
+    ctx.case(core.digest(x, bvec, 'matrix'), nontrivial=True, cls='matrix-n*nb>2**22')
+    a = _ncyc(eqsig, ctx, x, gmax * 0.3, bvec, 0.01)
+    b = _amp(eqsig, ctx, x, 15.0, bvec)
+    if a is not None and b is not None and a.size > 2 ** 22 and b.size > 2 ** 22:
+        ctx.ok('matrix(n*nb>2**22) driven')
 
 
 def micro_block(eqsig, ctx, rng):
@@ -1388,7 +1511,7 @@ def run_shard(ctx):
     ctx.cases_enumerated(n_enum, n_enum, cls='exhaustive-alphabet(-2..2)-powerlaw')
     ctx.exhaustive['alphabet5_signed_sequences_powerlaw'] = n_enum
     # -- random ------------------------------------------------------------------------------------------------------
-    n_rand = (3000 if quick else 60000) // ctx.nshards + 1
+    n_rand = (3000 if quick else 30000) // ctx.nshards + 1
     rng = ctx.rng
     for c in range(n_rand):
         if ctx.out_of_time():
@@ -1422,8 +1545,9 @@ def run_shard(ctx):
         if c % 3 == 1:
             audit_block(eqsig, ctx, x, integer, rng, c // 3)
     if not quick or ctx.shard % 4 == 0:
-        for _ in range(1 if quick else 2):
-            long_block(eqsig, ctx, rng)
+        long_block(eqsig, ctx, rng)
+    if ctx.shard % 8 == 1 or (not quick and ctx.shard % 2 == 1):
+        matrix_block(eqsig, ctx, rng)
     ctx.note('monitored_calls', dict(attach.CALLS))
 
 
